@@ -20,6 +20,7 @@ CONSTANTS Objs,      \* Process object slots
           CLK,       \* clock ticks per second (create_time = start/CLK + boot)
           Sigs,      \* signal numbers exercised
           Setters,   \* subset of {"nice","ionice","rlimit","affinity"}
+          Kinds,     \* subset of {"proc", "popen"}: psutil.Process(pid) / psutil.Popen(...)
           Fixes      \* see above
 
 VARIABLES bootMemo,    \* _pslinux.BOOT_TIME  (0 = None)
@@ -31,7 +32,7 @@ vars == <<kvars, bootMemo, pidsReused, objs, ev>>
 view == <<kvars, bootMemo, pidsReused, objs>>
 
 NoObj == [pid |-> -1, forInc |-> 0, ident |-> 0, gone |-> FALSE, reused |-> FALSE,
-          saidFalse |-> FALSE]
+          saidFalse |-> FALSE, kind |-> "-"]
 
 Used(o) == objs[o].pid # -1
 
@@ -64,17 +65,26 @@ ClockStep(b) == KClockStep(b) /\ UNCHANGED <<bootMemo, pidsReused, objs>>
 
 (* ---------------- psutil operations ------------------------------------ *)
 
-\* psutil.Process(p)
-New(o, p) ==
+\* psutil.Process(p)  /  psutil.Popen(...) whose child got PID p.  Popen
+\* tolerates a child that is already gone (_ignore_nsp): the object exists,
+\* flagged gone, with an identity that equals nothing (ident -1).
+New(o, p, kd) ==
   /\ ~Used(o)
   /\ IF Live(p)
        THEN /\ objs' = [objs EXCEPT ![o] = [pid |-> p, forInc |-> table[p].inc,
                                             ident |-> Ident(p), gone |-> FALSE,
-                                            reused |-> FALSE, saidFalse |-> FALSE]]
+                                            reused |-> FALSE, saidFalse |-> FALSE,
+                                            kind |-> kd]]
             /\ bootMemo' = MemoAfterIdent
-            /\ ev' = [op |-> "new", o |-> o, pid |-> p, res |-> "ok"]
-       ELSE /\ UNCHANGED <<objs, bootMemo>>
-            /\ ev' = [op |-> "new", o |-> o, pid |-> p, res |-> "NSP"]
+            /\ ev' = [op |-> "new", o |-> o, pid |-> p, kind |-> kd, res |-> "ok"]
+       ELSE IF kd = "popen" /\ p > 0
+         THEN /\ objs' = [objs EXCEPT ![o] = [pid |-> p, forInc |-> 0, ident |-> -1,
+                                              gone |-> TRUE, reused |-> FALSE,
+                                              saidFalse |-> FALSE, kind |-> kd]]
+              /\ UNCHANGED bootMemo
+              /\ ev' = [op |-> "new", o |-> o, pid |-> p, kind |-> kd, res |-> "ok"]
+         ELSE /\ UNCHANGED <<objs, bootMemo>>
+              /\ ev' = [op |-> "new", o |-> o, pid |-> p, kind |-> kd, res |-> "NSP"]
   /\ UNCHANGED <<kvars, pidsReused>>
 
 \* the user drops the reference (frees the model slot)
@@ -170,7 +180,8 @@ Eq(a, b) ==
   /\ Used(a) /\ Used(b) /\ a # b
   /\ ev' = [op |-> "eq", a |-> a, b |-> b,
             res   |-> (objs[a].pid = objs[b].pid /\ objs[a].ident = objs[b].ident),
-            truth |-> (objs[a].pid = objs[b].pid /\ objs[a].forInc = objs[b].forInc)]
+            truth |-> (objs[a].pid = objs[b].pid /\ objs[a].forInc = objs[b].forInc),
+            blind |-> (objs[a].forInc = 0 \/ objs[b].forInc = 0)]
   /\ UNCHANGED <<kvars, bootMemo, pidsReused, objs>>
 
 \* psutil.boot_time(): re-reads btime and overwrites the memo
@@ -189,7 +200,7 @@ IterAll ==
 Next == \/ \E p \in Pids : Spawn(p) \/ Exit(p) \/ Reap(p)
         \/ Tick
         \/ \E b \in Boots : ClockStep(b)
-        \/ \E o \in Objs, p \in Pids : New(o, p)
+        \/ \E o \in Objs, p \in Pids, kd \in Kinds : New(o, p, kd)
         \/ \E o \in Objs : Drop(o) \/ IsRunning(o) \/ Ppid(o)
         \/ \E o \in Objs, s \in Sigs : Signal(o, s)
         \/ \E o \in Objs, k \in Setters : Set(o, k)
@@ -222,7 +233,8 @@ C05_PpidReusedRaises ==
   [][(ev'.op = "ppid" /\ ev'.owner # 0 /\ ev'.owner # ev'.forInc) => ev'.res = "NSP"]_vars
 
 \* C02: == follows the process, not the PID
-C02_EqTruth == [][ev'.op = "eq" => ev'.res = ev'.truth]_vars
+\* (objects built for an already-gone child are outside the clause)
+C02_EqTruth == [][(ev'.op = "eq" /\ ~ev'.blind) => ev'.res = ev'.truth]_vars
 
 \* C02: is_running() is True exactly while that very process is listed
 C02_RunTruth == [][ev'.op = "is_running" => ev'.res = ev'.truth]_vars
